@@ -12,6 +12,7 @@ import (
 	"strconv"
 	"strings"
 
+	envoycore "github.com/envoyproxy/go-control-plane/envoy/config/core/v3"
 	route "github.com/envoyproxy/go-control-plane/envoy/config/route/v3"
 	matcher "github.com/envoyproxy/go-control-plane/envoy/type/matcher/v3"
 
@@ -274,7 +275,7 @@ func actionDecision(r *route.Route) decision {
 		d := decision{kind: "dr", status: a.DirectResponse.Status}
 		if a.DirectResponse.Body != nil {
 			d.hasBody = true
-			d.body = a.DirectResponse.Body.GetInlineString()
+			d.body = dataText(a.DirectResponse.Body)
 		}
 		return d
 	}
@@ -299,6 +300,14 @@ var redirectCodes = map[route.RedirectAction_RedirectResponseCode]int{
 	route.RedirectAction_SEE_OTHER:          303,
 	route.RedirectAction_TEMPORARY_REDIRECT: 307,
 	route.RedirectAction_PERMANENT_REDIRECT: 308,
+}
+
+// dataText: the bytes Envoy answers with for an inline DataSource (inline_string and inline_bytes are the same body)
+func dataText(d *envoycore.DataSource) string {
+	if b, ok := d.GetSpecifier().(*envoycore.DataSource_InlineBytes); ok {
+		return string(b.InlineBytes)
+	}
+	return d.GetInlineString()
 }
 
 func showRedirect(r *route.RedirectAction) string {
@@ -398,7 +407,7 @@ func showAction(r *route.Route) string {
 	case *route.Route_DirectResponse:
 		b := "-"
 		if a.DirectResponse.Body != nil {
-			b = wire.Enc(a.DirectResponse.Body.GetInlineString())
+			b = wire.Enc(dataText(a.DirectResponse.Body))
 		}
 		return "dr:" + strconv.Itoa(int(a.DirectResponse.Status)) + "!" + b
 	}
